@@ -333,7 +333,7 @@ Theorem parse_txt_ok_iff : forall img, snd (parse_txt img) = None <-> (2296 <= l
 Proof.
   intros img. unfold parse_txt. rewrite read_seq_ok_iff. split.
   - intros H. specialize (H ("E2Sts"%string, 2288, 8)%nat).
-    assert (Hin : In ("E2Sts"%string, 2288, 8)%nat parse_layout) by (unfold parse_layout; cbn [In]; tauto).
+    assert (Hin : In ("E2Sts"%string, 2288, 8)%nat parse_layout) by (unfold parse_layout; do 20 right; left; reflexivity).
     specialize (H Hin). unfold fits in H. cbn [e_off e_len fst snd] in H. apply Nat.leb_le in H. lia.
   - apply parse_all_fit.
 Qed.
@@ -641,13 +641,24 @@ Definition ex_specs : list (string * N * aspec) := [
   ("tools.ParseTXTRegs.TxtReset", 8, Sp (SNonZero 0 1)); ("registers.TXTErrorStatus.Reset", 8, Sp (SNonZero 0 1));
   ("registers.TXTDeviceID.DeviceID", 64, Sp (SBits 16 16))
 ]%string.
-Definition ex_image : list N := repeat 3 2296.
+Definition ex_image : list N := repeat 3 (N.to_nat 2296).
+Lemma lookup_In : forall l s v, lookup s l = Some v -> In (s, v) l.
+Proof.
+  induction l as [|[k x] t IH]; intros s v H; [discriminate|].
+  cbn [lookup] in H. destruct (String.eqb_spec s k) as [->|Hne].
+  - injection H as ->. left. reflexivity.
+  - right. apply IH, H.
+Qed.
 Example pair_sound_applies :
   pair_ok ex_specs ex_accs ("tools.ParseTXTRegs.TxtReset", "registers.TXTErrorStatus.Reset", "Ests", "TXT.ESTS")%string = true /\
   raw_pair_ok ex_specs ex_accs ("Did", "TXT.DIDVID", 2%nat, "registers.TXTDeviceID.DeviceID")%string = true /\
   In ("Ests"%string, 3) (fst (parse_txt ex_image)) /\ In ("TXT.ESTS"%string, 3) (fst (read_txt ex_image)) /\
   In ("Did"%string, 771) (fst (parse_txt ex_image)) /\ snd (parse_txt ex_image) = None.
-Proof. vm_compute. intuition. Qed.
+Proof.
+  split; [vm_compute; reflexivity|]. split; [vm_compute; reflexivity|].
+  split; [apply lookup_In; vm_compute; reflexivity|]. split; [apply lookup_In; vm_compute; reflexivity|].
+  split; [apply lookup_In; vm_compute; reflexivity|]. vm_compute. reflexivity.
+Qed.
 
 (** * 4. [ReadMSRRegisters] *)
 
